@@ -70,6 +70,29 @@ def real_guards(b, bb):
     return res
 
 
+def presence_edges(b):
+    """(field, branching block, successor taken when the field is present) for every branch of b that tests only the presence of one field of self."""
+    out = []
+    tr = ["MessageField::as_ref", "Option::as_ref", "Option::as_deref", "Deref::deref"]
+    for bi in b.reachable_blocks():
+        si = b.switch_info(bi)
+        if si and si[0][0] == "discr":
+            t = peel(si[0][1], transparent=tr)
+            if _pure_path(t):
+                some = [x for v, x in si[1] if v == 1]
+                if some:
+                    out.append((self_field_of(t), bi, some[0]))
+                elif len(si[1]) == 1 and si[1][0][0] == 0:
+                    out.append((self_field_of(t), bi, si[2]))
+            continue
+        be = b.bool_edges(bi)
+        if be and is_call(be[0], ["Option::is_some", "MessageField::is_some", "Option::is_none", "MessageField::is_none"]) and be[0][2]:
+            t = peel(be[0][2][0], transparent=tr)
+            if _pure_path(t):
+                out.append((self_field_of(t), bi, be[2] if strip_generics(be[0][1]).endswith("is_none") else be[1]))
+    return out
+
+
 def _pure_path(t):
     """self.<field> possibly behind references: no operator, constant, downcast or call."""
     while isinstance(t, tuple) and t and t[0] in ("ref", "deref"):
@@ -207,6 +230,8 @@ def rule_R2(ctx, f):
             ctx.ob(rid, "%s|unknown-fields" % mn, len(uf) == 1 and self_field_of(uf[0].args[1]) == "special_fields", "unknown fields are written from special_fields only", site=w.raw["span"]["at"])
         if s:
             ctx.saw(s)
+            from pvrules import inline
+            s = inline.desugar_map_sum(f, s) or s      # `self.f.iter().map(|m| size of m).sum()` is the accumulation loop
             seen = {}
             for c in s.calls():
                 fn = strip_generics(c.callee).split("::")[-1]
@@ -215,18 +240,25 @@ def rule_R2(ctx, f):
                 if c.matches("Message::compute_size"):
                     fld = self_field_of(c.args[0])
                     seen[fld] = (None, "message")
-            # fixed-size fields: guarded by discr(self.f) and adding 1 + N
-            for bi in s.reachable_blocks():
-                si = s.switch_info(bi)
-                if si and si[0][0] == "discr":
-                    fld = self_field_of(si[0][1])
-                    some_t = [t for v, t in si[1] if v == 1]
-                    if fld and some_t and fld not in seen:
-                        for st in s.blocks[some_t[0]]["stmts"]:
-                            if st["k"] == "assign" and st["rv"]["k"] == "binop" and st["rv"]["op"] == "AddWithOverflow":
-                                a, bb_ = s.term_operand(st["rv"]["ops"][0]), s.term_operand(st["rv"]["ops"][1])
-                                if const_int(a) == 1 and const_int(bb_) in (4, 8, 1):
-                                    seen[fld] = (None, "fixed%d" % const_int(bb_))
+            # fixed-size fields: on the edge where self.f is present (if let Some / is_some()) the constant 1 + N is added
+            for fld, bi, tgt in presence_edges(s):
+                if not fld or fld in seen:
+                    continue
+                for x in s.reachable_blocks():
+                    if not s.edge_dominates(bi, tgt, x):
+                        continue
+                    for st in s.blocks[x]["stmts"]:
+                        if st["k"] != "assign":
+                            continue
+                        rv = st["rv"]
+                        if rv["k"] == "binop" and rv["op"] in ("AddWithOverflow", "Add", "AddUnchecked"):
+                            a, bb_ = s.term_operand(rv["ops"][0]), s.term_operand(rv["ops"][1])
+                            if const_int(a) == 1 and const_int(bb_) in (4, 8, 1):
+                                seen[fld] = (None, "fixed%d" % const_int(bb_))
+                            elif a[0] != "const" and bb_[0] == "const" and const_int(bb_) in (5, 9, 2) and fld not in seen:
+                                seen[fld] = (None, "fixed%d" % (const_int(bb_) - 1))
+                        elif rv["k"] == "use" and rv["ops"][0].get("k") == "const" and const_int(s.term_operand(rv["ops"][0])) in (5, 9, 2) and fld not in seen:
+                            seen[fld] = (None, "fixed%d" % (const_int(s.term_operand(rv["ops"][0])) - 1))
             for c in s.calls():
                 fn = strip_generics(c.callee).split("::")[-1]
                 if (fn in SIZE_FN.values() and c.matches(re.compile(r"^protobuf::rt::"))) or c.matches("Message::compute_size"):
